@@ -40,13 +40,13 @@ func main() { vlib.Run("C25", run) }
 func run(c *vlib.Ctx) {
 	c.Rule("case = one base record (key type x v1-compat x embed option x future/expired EOL x seq/ttl/value/metadata classes) plus donor records (same key other content, other key same content, same key expired, same key re-signed) and 20-45 wire-level variants, each judged through ValidateWithName, Validate, Validator.Validate(+-KeyBook); distinct = FNV of base spec + variant list + observed accept/reject codes; non-trivial = within the case at least one variant was accepted by some entry point AND at least one variant was rejected by all of them (measured)")
 	kit.Keys(c.Seed)
-	c.Cases("v1", c.N(230, 3000), func(k *vlib.Case) { mutationCase(k, "v1") })
-	c.Cases("v2", c.N(170, 2200), func(k *vlib.Case) { mutationCase(k, "v2") })
-	c.Cases("legacy", c.N(90, 1000), func(k *vlib.Case) { mutationCase(k, "legacy") })
-	c.Cases("name", c.N(80, 900), nameCase)
-	c.Cases("size", c.N(32, 200), sizeCase)
-	c.Cases("malleable", c.N(40, 400), malleableCase)
-	c.Cases("flipall", c.N(16, 160), flipAllCase)
+	c.Cases("v1", c.N(230, 1400), func(k *vlib.Case) { mutationCase(k, "v1") })
+	c.Cases("v2", c.N(170, 1000), func(k *vlib.Case) { mutationCase(k, "v2") })
+	c.Cases("legacy", c.N(90, 450), func(k *vlib.Case) { mutationCase(k, "legacy") })
+	c.Cases("name", c.N(80, 400), nameCase)
+	c.Cases("size", c.N(32, 100), sizeCase)
+	c.Cases("malleable", c.N(40, 200), malleableCase)
+	c.Cases("flipall", c.N(16, 64), flipAllCase)
 }
 
 // ---------------------------------------------------------------- world
